@@ -3,6 +3,8 @@ import PQ.Props.C07
 import PQ.Model.Spec
 import PQ.Lemmas.PageRT
 import PQ.Props.C06
+import PQ.Lemmas.FileRT
+import PQ.Lemmas.SchemaTree
 /-!
 # C02 — every written file is structurally valid Parquet with a truthful footer
 
@@ -10,9 +12,14 @@ Carried so far by theorems over the model: the thrift layer (footer and page hea
 what was encoded; a truncated struct never decodes; every emitted byte is a byte), the level
 sections (well-formed hybrid streams with exact length prefix), and — in `PQ/Props/C06.lean` — the
 layout of the sink stream (offsets and sizes recorded in the footer equal the positions and
-lengths of the bytes written).  The statement `parseFile (fileBytes (runWriter …)) = ok …` for all
-histories is **not yet a single theorem**; `PQ.parseFile` is evaluated on every file the
-implementation writes on every run, and the model writer's bytes equal the implementation's.
+lengths of the bytes written).  `file_valid` below is the full statement: for every struct shape (every well-formed field forest:
+any nesting depth, repeated groups, same-named groups under different parents), every history of
+Add/Write ending in Close, every page size ≥ 1 and every codec with a correct decompressor, the
+bytes the writer model gives to the sink are accepted by the independent parser/validator
+`PQ.parseFile` (magic, footer length, thrift, schema tree = the struct's columns, every offset /
+size / count / codec, page record limits and boundaries, exact level and value section lengths)
+and contain exactly the written batches.  The model writer's bytes equal the implementation's on
+every run (exact tie), and `PQ.parseFile` is also evaluated on every file the implementation writes.
 -/
 namespace PQ.C02
 
@@ -40,5 +47,27 @@ theorem page_valid (dc : Decomp) (k : Codec) (codec : Int) (c : Col) (es : PageE
             compressedLen := (pageBytes k c es).2.length, uncompressedLen := (pagePayload c es).length,
             stats := some (pageStatsFields c es) } :=
   PQ.specPage_pageBytes_codec dc k codec c es hwf hk pre rest
+
+/-- **C02, full statement over the model.** Hypotheses: the struct is a well-formed field forest;
+every added record has, for each column, the entries of one striped record (`RecColOK`: starts at
+`rep = 0`, levels within the column's maxima, value present iff `def = maxDef`, values well-typed —
+what `PQ.C03.levels_bounded`/`first_rep_zero` give for `stripeTop`, see `PQ.recColOK_stripe`);
+nesting ≤ 15 (level widths ≤ 4 bits, the library's limit); sizes below the format's 32-bit fields;
+the codec's decompressor inverts its compressor. -/
+theorem file_valid (dc : Decomp) (k : Codec) (ts : List FTree) (hwf : ∀ t ∈ ts, t.WF) (hsd : SiblingsDistinct ts)
+    (max : Nat) (body : List Op) (hmax : 1 ≤ max) (hcols : colsOf ts ≠ []) (hbody : ∀ op ∈ body, op.isClose = false)
+    (hrec : ∀ r, Op.add r ∈ body → r.length = (colsOf ts).length ∧ ∀ x ∈ (colsOf ts).zipIdx, RecColOK x.1 (r.getD x.2 []))
+    (hdef : ∀ c ∈ colsOf ts, c.maxDef ≤ 15)
+    (hlen : ∀ b ∈ batches body, ∀ x ∈ (colsOf ts).zipIdx, (b.flatMap (·.getD x.2 [])).length + 8 ≤ 2 ^ 30)
+    (hcodec : ∀ raw, CodecOK dc k (k.id : Int) raw)
+    (hsize : (fileBytes (runWriter (colsOf ts) max k (body ++ [Op.close]))).length < 2 ^ 32) :
+    ∃ f, parseFile dc (colsOf ts) max (fileBytes (runWriter (colsOf ts) max k (body ++ [Op.close]))) = .ok f ∧
+      f.numRows = ((batches body).map List.length).sum ∧
+      f.fmd.numRows = (((batches body).map List.length).sum : Nat) ∧
+      f.rowGroups.map (·.numRows) = (batches body).map List.length ∧
+      f.rowGroups.map (fun rg => rg.chunks.map (·.entries)) =
+        (batches body).map (fun b => (List.range (colsOf ts).length).map fun i => b.flatMap (·.getD i [])) := by
+  obtain ⟨se, h1, _, h3, h4⟩ := schema_valid ts hwf hsd
+  exact parseFile_runWriter_records dc k (colsOf ts) max body hmax hcols hbody hrec hdef hlen hcodec hsize se _ h1 h3 h4
 
 end PQ.C02
